@@ -657,8 +657,13 @@ func (s *Server) Watch(ctx context.Context, opts metav1.ListOptions) (watch.Inte
 		case 2:
 			return nil, apierrors.NewInternalError(errors.New("injected: internal error"))
 		case 3:
-			return nil, apierrors.NewTooManyRequests("injected: slow down", 1)
+			// (the Retry-After hint is the server's wish, not the library's contract:
+			// the reconnect delay stays what it is)
+			return nil, apierrors.NewTooManyRequests("injected: slow down", []int{1, 7, 120}[detsim.Choose("retry-after", 3)])
 		case 4:
+			if detsim.Choose("unavailable-kind", 2) == 1 {
+				return nil, apierrors.NewServerTimeout(schema.GroupResource{Resource: "pods"}, "watch", 30)
+			}
 			return nil, apierrors.NewServiceUnavailable("injected: unavailable")
 		case 5:
 			return nil, apierrors.NewNotFound(gr, "")
